@@ -18,18 +18,19 @@ import (
 // behind another one (C10: fault-free transparency, C11: fill faults and concurrent first opens).
 
 type cacheWorld struct {
-	t        *T
-	srcInner hackpadfs.FS // mem.FS, or (1 in 4) a mount.FS whose directory d is a mount point
-	srcDesc  string
-	src      *capCore
-	store    *capCore
-	storeIn  *mem.FS
-	cfs      *cache.ReadOnlyFS
-	files    map[string][]byte
-	dirs     []string
-	retain   func(name string, info hackpadfs.FileInfo) bool
-	retDesc  string
-	storeMin bool
+	t         *T
+	srcInner  hackpadfs.FS // mem.FS, or (1 in 4) a mount.FS whose directory d is a mount point
+	srcDesc   string
+	src       *capCore
+	store     *capCore
+	storeIn   *mem.FS
+	cfs       *cache.ReadOnlyFS
+	files     map[string][]byte
+	dirs      []string
+	retain    func(name string, info hackpadfs.FileInfo) bool
+	retDesc   string
+	storeMin  bool
+	srcNoSeek bool // the source's file handles have no Seek
 	// firstAnswer (stateful policies): what the policy said when it was first asked about a name
 	firstAnswer map[string]bool
 }
@@ -71,6 +72,13 @@ func newCacheWorld(t *T, sizes []int) *cacheWorld {
 	w.src = &capCore{t: t, inner: w.srcInner, faultAt: -1, label: "src.", opens: map[string]int{}, reads: map[string]int{}, readShape: c.Weighted(3, 1, 1, 1)}
 	if c.Chance(1, 3) {
 		w.src.readErr = io.ErrUnexpectedEOF
+	}
+	if c.Chance(1, 4) {
+		// a source whose files cannot seek (a stream-like source: only Read, Stat, Close, and ReadDir for directories):
+		// after copying, the cache cannot rewind the handle it has and must hand out one from its store
+		w.src.fileMode = "only:ReadDir"
+		w.srcNoSeek = true
+		t.Stat("c10:source-files-without-seek")
 	}
 	w.store = &capCore{t: t, inner: w.storeIn, faultAt: -1, label: "store.", writing: map[string]int{}, short: c.Chance(1, 2), lossyClose: true}
 	switch c.Draw(5) {
@@ -169,7 +177,7 @@ func runC10(t *T) {
 		cur.knobs["cacheCopyBuf"] = uint64([]int{1, 7, 64, 512, 4096}[c.Draw(5)])
 	}
 	w := newCacheWorld(t, cacheSizes)
-	t.Logf("source=%s retain=%s minimal-store=%v src-read-shape=%d copybuf=%v files=%v", w.srcDesc, w.retDesc, w.storeMin, w.src.readShape, cur.knobs["cacheCopyBuf"], w.names())
+	t.Logf("source=%s (files seek: %v) retain=%s minimal-store=%v src-read-shape=%d copybuf=%v files=%v", w.srcDesc, !w.srcNoSeek, w.retDesc, w.storeMin, w.src.readShape, cur.knobs["cacheCopyBuf"], w.names())
 	type hp struct {
 		c, m         hackpadfs.File
 		name         string
@@ -185,6 +193,26 @@ func runC10(t *T) {
 	}()
 	opened := map[string]bool{}
 	cand := append(append(w.names(), w.dirs...), "missing", "d/missing")
+	if c.Chance(1, 6) && w.firstAnswer == nil { // (not with the budget policy: a fill that failed has used up budget, and what the policy says next is its own affair)
+		// history before the compared sequence: one fill that failed (and, on the minimal store, could not be cleaned
+		// up). Nothing of it is compared; from here on nothing fails, and the statement holds for what follows
+		names := w.names()
+		name := names[c.Draw(len(names))]
+		target, kind := w.store, []string{"file.Write", "file.CloseWritten", "OpenFile"}[c.Draw(3)]
+		if c.Chance(1, 3) {
+			target, kind = w.src, "file.Read"
+		}
+		target.faultKind, target.kindSeen, target.faultAt, target.fired = kind, 0, c.Draw(3), ""
+		f, err := w.cfs.Open(name)
+		if err == nil {
+			f.Close()
+		}
+		t.Logf("prelude: Open(%q) with a failing %s -> %s (fault fired: %q)", name, kind, errClass(err), target.fired)
+		if target.fired != "" {
+			t.Stat("c10:failed-fill-before-the-sequence")
+		}
+		target.faultAt, target.faultKind, target.fired = -1, "", ""
+	}
 	n := 3 + c.Draw(14)
 	for i := 0; i < n; i++ {
 		sig := "C10:"
@@ -241,6 +269,9 @@ func runC10(t *T) {
 			case 3: // Seek (regular files only: seeking a directory handle is not part of any listed contract)
 				if _, isFile := w.files[h.name]; !isFile {
 					continue
+				}
+				if w.srcNoSeek && !w.retained(h.name) {
+					continue // the cache hands the source's own handle through: it seeks as well as that one does
 				}
 				off := int64([]int{0, 1, 511, 512, 513, -1}[c.Draw(6)])
 				wh := c.Draw(3)
@@ -418,7 +449,17 @@ func c11Fault(t *T) {
 	if fired == "" {
 		return // the drawn index lies beyond the fill: nothing was tested
 	}
-	if err == nil && fired != "file.Close" && !(onSource && fired == "file.Seek") {
+	rewindRefusal := false
+	if onSource && fired == "file.Stat" && w.srcNoSeek {
+		// a source handle without Seek: the helper that tries the final rewind asks the handle's Stat for the name in
+		// its refusal. The copy is complete by then (every Read has happened); the rewind has a fallback
+		for _, call := range w.src.calls[:w.src.faultedAt] {
+			if call == "file.Read "+name {
+				rewindRefusal = true
+			}
+		}
+	}
+	if err == nil && fired != "file.Close" && !(onSource && fired == "file.Seek") && !rewindRefusal {
 		// every call of the fill matters except closing read handles and the final rewind of the source handle (which has a fallback)
 		t.Fail("fault-not-reported", "C11:fault="+map[bool]string{true: "src.", false: "store."}[onSource]+fired+":open-returns-no-error", fmt.Sprintf("the %s call %s failed during the fill of %q, yet Open returned no error", map[bool]string{true: "source", false: "cache store"}[onSource], fired, name))
 	}
